@@ -17,7 +17,7 @@ re-checked on every run.  Anything else is a violation naming the site and the c
 """
 NOT_DECIDED = "termination of the receive loop (depends on the kernel queue); allocation failure; panics inside dependencies on inputs not covered by the panicking-precondition table"
 TRUSTED = ["external callees outside the panicking-precondition table do not panic (list in evidence)", "mio/std socket calls return Err instead of panicking"]
-ASSUMPTIONS = ["conditions of debug_assert!/debug_assert_eq! that the prover cannot discharge are taken to hold: they exist only under cfg(debug_assertions) and are absent from a release build (count in the evidence: debug_assertions_assumed)", "a statistics counter does not wrap (2^32 events from one address within one reporting window / 2^64 total)",
+ASSUMPTIONS = ["the release configuration is analysed (-C debug-assertions=off, overflow checks kept as obligations): debug_assert!() and cfg(debug_assertions) code is compiled out and not part of the decided behaviour", "a statistics counter does not wrap (2^32 events from one address within one reporting window / 2^64 total)",
                "the system clock is not before 1970 (C11's quantifier)", "memory allocation succeeds"]
 
 ROOT = "roughenough::server::Server::process_events"
